@@ -52,7 +52,8 @@ def spectrum(draw, nmax=16):
 def sched_case(draw, entries=ENTRIES):
     entry = draw(st.sampled_from(entries))
     keys = draw(st.lists(st.lists(st.integers(0, 9), min_size=4, max_size=40), min_size=1, max_size=4))
-    return {"entry": entry, "spec": draw(spectrum(12 if entry in ("zhit", "cnls") else 16)), "keys": keys, "global_seed": draw(st.integers(0, 2**31))}
+    # the pool size requested from the library is drawn too: nothing in a result may depend on it
+    return {"entry": entry, "spec": draw(spectrum(12 if entry in ("zhit", "cnls") else 16)), "keys": keys, "global_seed": draw(st.integers(0, 2**31)), "num_procs": draw(st.sampled_from([2, 3, 7, 12, 16]))}
 
 
 def _data(spec):
@@ -199,7 +200,7 @@ def body(ctx, case):
     sched = Schedule(case["keys"])
     with patched_pools(make_pool_class(sched)):
         try:
-            fp = run_entry(entry, data, 3)
+            fp = run_entry(entry, data, case.get("num_procs", 3))
         except refusals as e:
             ctx.fail("schedule-independent", case, f"{entry}: serial run returned a result, the pooled run raised {type(e).__name__}: {e}")
             fp = None
@@ -209,6 +210,7 @@ def body(ctx, case):
     if sched.nontrivial:
         labels.add("fakepool:permuted")
     labels.add(f"fakepool:calls={min(sched.calls, 3)}")
+    labels.add(f"requested-procs:{case.get('num_procs', 3)}")
     ctx.record(case, sched.nontrivial or sched.calls > 0, sorted(labels), "pool not used")
 
 
@@ -269,6 +271,10 @@ def mock_cases(ctx):
         ids = [f"CIRCUIT_{i}" for i in range(1, 20)] + [f"CIRCUIT_{i}_INVALID" for i in range(1, 17)]
     for i in ids:
         yield {"id": i, "noise": 0.5, "seed_a": 42 + ctx.seed, "seed_b": 43 + ctx.seed}
+        if i in ids[:6]:
+            # boundary seeds: 0, negative, wider than 32 bits
+            yield {"id": i, "noise": 0.5, "seed_a": 0, "seed_b": 1}
+            yield {"id": i, "noise": 0.5, "seed_a": -7, "seed_b": 2**32 + 5}
 
 
 def body_mock(ctx, case):
